@@ -160,33 +160,47 @@ def run_shard(desc):
             else:
                 part["inconclusive"].append("%s: %s" % (kind_, detail))
     elif kind == "ladder":
-        fam, depth = arg
-        s = FAMILIES[fam](depth)
-        steps = [{"op": "parse", "text": s, "want": "ed", "cpu_budget_s": 60}, {"op": "exec", "text": s}]
-        run = common.run_vexec(steps, wd, "ladder-%s-%d" % (fam, depth), profile, stack_mb=8, timeout=900)
-        kind_, detail = common.crash_verdict(run, "ladder")
-        part["evaluations"] += 1
-        C["ladder_rungs"] = 1
-        if kind_ is None and run.ended:
-            st = run.steps()
-            pan = [x for x in st if "ppanic" in x or "expr_panic" in x or "desc_panic" in x or (isinstance(x.get("res"), dict) and "panic" in x["res"])]
-            if pan:
-                part["violations"].append({"sig": ["panic", "ladder", fam], "what": "family %s at depth %d panicked: %s" % (fam, depth, json.dumps(pan[0])[:300]), "replay": {"family": fam, "depth": depth}})
+        # one family per shard, rungs in increasing order; the CPU budget of a rung is derived from the measured
+        # cost of the previous rung (polynomial growth up to cubic in the depth is tolerated: quadratic-but-
+        # terminating behaviour is not a violation), never from wall time
+        fam, rungs = arg
+        prev = None  # (depth, cpu seconds)
+        C["ladder_rungs"] = 0
+        for depth in rungs:
+            s = FAMILIES[fam](depth)
+            budget = 60
+            if prev is not None:
+                budget = int(max(60, 30 * max(prev[1], 0.05) * (depth / prev[0]) ** 3))
+            steps = [{"op": "parse", "text": s, "want": "ed", "cpu_budget_s": budget}, {"op": "exec", "text": s}]
+            run = common.run_vexec(steps, wd, "ladder-%s-%d" % (fam, depth), profile, stack_mb=8, timeout=1500)
+            kind_, detail = common.crash_verdict(run, "ladder")
+            part["evaluations"] += 1
+            C["ladder_rungs"] += 1
+            if kind_ is None and run.ended:
+                st = run.steps()
+                cost = sum((x["t1"] - x["t0"]) / 1e9 for x in st if "t0" in x)
+                prev = (depth, cost)
+                pan = [x for x in st if "ppanic" in x or "expr_panic" in x or "desc_panic" in x or (isinstance(x.get("res"), dict) and "panic" in x["res"])]
+                if pan:
+                    part["violations"].append({"sig": ["panic", "ladder", fam], "what": "family %s at depth %d panicked: %s" % (fam, depth, json.dumps(pan[0])[:300]), "replay": {"family": fam, "depth": depth}})
+                else:
+                    part["classes"].add("ladder:%s:%d:%s" % (fam, depth, st[0].get("p") if st else "?"))
+                    if depth == 1000:
+                        part["samples"].append({"workload": "depth ladder", "family": fam, "depth": depth, "outcome": st[0].get("p") if st else None, "seconds": round(cost, 3)})
+            elif kind_ == "signal":
+                part["violations"].append({"sig": ["stack-exhaustion", fam, bucket(depth)], "what": "shape family `%s` (e.g. %r) kills the process at nesting depth %d: %s" % (fam, FAMILIES[fam](3), depth, detail),
+                                           "replay": {"family": fam, "depth": depth}, "depth": depth})
+                break  # deeper rungs abort a fortiori
+            elif kind_ in ("hang", "deadlock"):
+                part["violations"].append({"sig": [kind_, "ladder", fam, bucket(depth)], "what": "shape family `%s` at depth %d (%d bytes): %s (budget %ds derived from the previous rung %s)" % (fam, depth, len(s), detail, budget, prev), "replay": {"family": fam, "depth": depth}})
+                break
             else:
-                part["classes"].add("ladder:%s:%d:%s" % (fam, depth, st[0].get("p") if st else "?"))
-                if depth == 100:
-                    part["samples"].append({"workload": "depth ladder", "family": fam, "depth": depth, "outcome": st[0].get("p") if st else None})
-        elif kind_ == "signal":
-            part["violations"].append({"sig": ["stack-exhaustion", fam, bucket(depth)], "what": "shape family `%s` (e.g. %r) kills the process at nesting depth %d: %s" % (fam, FAMILIES[fam](3), depth, detail),
-                                       "replay": {"family": fam, "depth": depth}, "depth": depth})
-        elif kind_ in ("hang", "deadlock"):
-            part["violations"].append({"sig": [kind_, "ladder", fam, bucket(depth)], "what": "shape family `%s` at depth %d (%d bytes): %s" % (fam, depth, len(s), detail), "replay": {"family": fam, "depth": depth}})
-        else:
-            part["inconclusive"].append("ladder %s/%d: %s %s" % (fam, depth, kind_, detail))
+                part["inconclusive"].append("ladder %s/%d: %s %s" % (fam, depth, kind_, detail))
+                break
     elif kind == "length":
         name, s = arg
-        steps = [{"op": "parse", "text": s, "cpu_budget_s": 120}, {"op": "exec", "text": s}, {"op": "tokenize", "text": s[:200000]}]
-        run = common.run_vexec(steps, wd, "length-%s" % name, profile, stack_mb=8, timeout=1800)
+        steps = [{"op": "parse", "text": s, "cpu_budget_s": 1200}, {"op": "exec", "text": s}, {"op": "tokenize", "text": s[:200000]}]
+        run = common.run_vexec(steps, wd, "length-%s" % name, profile, stack_mb=8, timeout=3000)
         kind_, detail = common.crash_verdict(run, "length")
         part["evaluations"] += 1
         C["length_inputs"] = 1
@@ -214,7 +228,9 @@ def length_inputs(tier):
         ("long-number", "1" * n),
         ("long-name", "a" * (4 * n)),
         ("long-list", "[" + ",".join(["1"] * (n // 8)) + "]"),
-        ("many-statements", ";".join(["x=1"] * (n // 8))),
+        # no blank or delimiter anywhere: the word-operator probe rescans to the end for every name (quadratic, terminating)
+        ("many-statements", ";".join(["x=1"] * min(n // 8, 32768))),
+        ("many-statements-spaced", " ; ".join(["x = 1"] * (n // 8))),
         ("long-whitespace", " " * (4 * n) + "1"),
         ("long-map", "{" + ",".join(["1:2"] * (n // 16)) + "}"),
         ("long-args", "f(" + ",".join(["1"] * (n // 8)) + ")"),
@@ -235,10 +251,9 @@ def run(rep, tier):
     ns = 16000 if tier == "quick" else 400000
     per = 1000 if tier == "quick" else 12500
     shards += [("soup", i, 0, per, "release" if i % 2 else "verifdbg") for i in range(ns // per)]
-    rungs = RUNGS + ([1000000] if tier == "thorough" else [])
+    rungs = [10, 100, 1000, 3000, 100000] if tier == "quick" else RUNGS + [300000, 1000000]
     for fam in FAMILIES:
-        for d in rungs:
-            shards.append(("ladder", 0, 0, (fam, d), "verifdbg"))
+        shards.append(("ladder", 0, 0, (fam, rungs), "verifdbg"))
     for nm, s in length_inputs(tier):
         shards.append(("length", 0, 0, (nm, s), "release"))
     parts = common.pmap(run_shard, shards)
